@@ -139,6 +139,12 @@ impl CommitOracle {
 		// a stuck long-running reader). Once the watermark moves, the GC body
 		// runs and resets the counter to 0.
 		g.commits_since_gc = g.commits_since_gc.saturating_add(1);
+		#[cfg(feature = "verif")]
+		if let Some(n) = crate::verif::oracle_gc_interval() {
+			if g.commits_since_gc >= n {
+				g.commits_since_gc = GC_INTERVAL;
+			}
+		}
 
 		// Two gates, both required:
 		//   (a) Enough commits since the last sweep — perf throttle.
